@@ -240,4 +240,94 @@ def interp_matches_gen_structure_goal : Prop :=
     generatePython L fuel t = .ok lines → render L fuel t env = .ok out →
     ∃ sem : List Line → Env → Option (List Nat), sem lines env = some out
 
+/-! ### the loader: names are resolved against the mentioning file, the cache is keyed by the resolved name -/
+
+/-- every template in the cache is the parse of the source stored under the template's **own** name -/
+def CacheOK (s : Settings) (srcs : List Source) (L : Loader) : Prop :=
+  ∀ t ∈ L, ∃ src, srcs.find? (fun x => x.name == t.name) = some src ∧ parseSource s src = .ok t
+
+theorem parseSource_name {s : Settings} {src : Source} {t : FileInfo} (h : parseSource s src = .ok t) :
+    t.name = src.name := by
+  unfold parseSource at h
+  split at h
+  · cases h
+  · cases h; rfl
+
+theorem loadAll_cacheOK (s : Settings) (srcs : List Source) (f : Nat) (todo : List Str) (acc L : Loader)
+    (h : loadAll s srcs f todo acc = .ok L) (hacc : CacheOK s srcs acc) : CacheOK s srcs L := by
+  induction f generalizing todo acc with
+  | zero => simp [loadAll] at h
+  | succ f ih =>
+    cases todo with
+    | nil => simp only [loadAll] at h; cases h; exact hacc
+    | cons name todo =>
+      simp only [loadAll] at h
+      split at h
+      · exact ih _ _ h hacc
+      · split at h
+        · cases h
+        · rename_i src hsrc
+          split at h
+          · cases h
+          · rename_i t ht
+            refine ih _ _ h ?_
+            intro t' ht'
+            simp only [List.mem_append, List.mem_singleton] at ht'
+            rcases ht' with h1 | rfl
+            · exact hacc _ h1
+            · have hn : src.name = name := by
+                have := List.find?_some hsrc
+                simpa using this
+              refine ⟨src, ?_, ht⟩
+              rw [parseSource_name ht, hn]; exact hsrc
+
+/-- **cache_keyed_by_resolved_name**: after any sequence of top-level loads on one loader instance (each of which
+loads everything reachable through resolved `{% extends %}` / `{% include %}` names) every cached template is the parse
+of the source stored under its own name. -/
+theorem cache_keyed_by_resolved_name (s : Settings) (srcs : List Source) (names : List Str) (cache : Loader)
+    (h : CacheOK s srcs cache) : CacheOK s srcs (loadSeq s srcs names cache) := by
+  induction names generalizing cache with
+  | nil => exact h
+  | cons n rest ih =>
+    simp only [loadSeq]
+    split
+    · exact ih _ h
+    · rename_i L hL
+      exact ih _ (loadAll_cacheOK s srcs _ _ _ _ hL h)
+
+/-- **load_history_independent**: which template a (resolved) name denotes does not depend on what the loader
+loaded before — two arbitrary load histories agree on every name both have cached. -/
+theorem load_history_independent (s : Settings) (srcs : List Source) (h1 h2 : List Str) (name : Str) (t1 t2 : FileInfo)
+    (e1 : (loadSeq s srcs h1 []).find name = some t1) (e2 : (loadSeq s srcs h2 []).find name = some t2) : t1 = t2 := by
+  have ok1 := cache_keyed_by_resolved_name s srcs h1 [] (by intro t ht; cases ht)
+  have ok2 := cache_keyed_by_resolved_name s srcs h2 [] (by intro t ht; cases ht)
+  unfold Loader.find at e1 e2
+  have n1 : t1.name = name := by simpa using List.find?_some e1
+  have n2 : t2.name = name := by simpa using List.find?_some e2
+  obtain ⟨s1, f1, p1⟩ := ok1 t1 (List.mem_of_find?_eq_some e1)
+  obtain ⟨s2, f2, p2⟩ := ok2 t2 (List.mem_of_find?_eq_some e2)
+  rw [n1] at f1; rw [n2] at f2
+  rw [f1] at f2; cases f2
+  rw [p1] at p2; cases p2; rfl
+
+/-- a top-level `loader.load(name)` uses the name as it is -/
+theorem resolve_toplevel (name : Str) : resolvePath name none = name := rfl
+
+-- non-vacuity: `footer.html` mentioned by `admin/page.html` is `admin/footer.html`; `../footer.html` is the top-level
+-- file; a `/absolute` parent or name switches resolution off; and a loader with `footer.html` in two directories
+-- gives `admin/page.html` the sibling, whether or not the top-level `footer.html` was loaded before.
+example : resolvePath (/-"footer.html"-/ [102, 111, 111, 116, 101, 114, 46, 104, 116, 109, 108]) (some (/-"admin/page.html"-/ [97, 100, 109, 105, 110, 47, 112, 97, 103, 101, 46, 104, 116, 109, 108]))
+    = (/-"admin/footer.html"-/ [97, 100, 109, 105, 110, 47, 102, 111, 111, 116, 101, 114, 46, 104, 116, 109, 108]) := by decide
+example : resolvePath (/-"../footer.html"-/ [46, 46, 47, 102, 111, 111, 116, 101, 114, 46, 104, 116, 109, 108]) (some (/-"admin/page.html"-/ [97, 100, 109, 105, 110, 47, 112, 97, 103, 101, 46, 104, 116, 109, 108]))
+    = (/-"footer.html"-/ [102, 111, 111, 116, 101, 114, 46, 104, 116, 109, 108]) := by decide
+example : resolvePath (/-"footer.html"-/ [102, 111, 111, 116, 101, 114, 46, 104, 116, 109, 108]) (some (/-"/abs/page.html"-/ [47, 97, 98, 115, 47, 112, 97, 103, 101, 46, 104, 116, 109, 108]))
+    = (/-"footer.html"-/ [102, 111, 111, 116, 101, 114, 46, 104, 116, 109, 108]) := by decide
+
+/-- `f`, `a/f` and `a/p` = `{% include f %}`: the same base name in two directories -/
+def exDirs : List Source := [⟨(/-"f"-/ [102] : List Nat), (/-"top"-/ [116, 111, 112] : List Nat)⟩, ⟨(/-"a/f"-/ [97, 47, 102] : List Nat), (/-"sub"-/ [115, 117, 98] : List Nat)⟩, ⟨(/-"a/p"-/ [97, 47, 112] : List Nat), (/-"{% include f %}"-/ [123, 37, 32, 105, 110, 99, 108, 117, 100, 101, 32, 102, 32, 37, 125] : List Nat)⟩]
+-- `a/p` first, or the top-level `f` first: in both histories `a/p` pulls in its sibling `a/f`
+example : (loadSeq ⟨none, none⟩ exDirs [(/-"a/p"-/ [97, 47, 112] : List Nat)] []).map (·.name) = [(/-"a/p"-/ [97, 47, 112] : List Nat), (/-"a/f"-/ [97, 47, 102] : List Nat)] := by decide
+example : (loadSeq ⟨none, none⟩ exDirs [(/-"f"-/ [102] : List Nat), (/-"a/p"-/ [97, 47, 112] : List Nat)] []).map (·.name) = [(/-"f"-/ [102] : List Nat), (/-"a/p"-/ [97, 47, 112] : List Nat), (/-"a/f"-/ [97, 47, 102] : List Nat)] := by decide
+example : (compileSeq ⟨none, none⟩ exDirs [(/-"f"-/ [102] : List Nat), (/-"a/p"-/ [97, 47, 112] : List Nat)] []).getLast? = (compileSeq ⟨none, none⟩ exDirs [(/-"a/p"-/ [97, 47, 112] : List Nat)] []).getLast? := by rfl
+
 end TornadoModel.C19
